@@ -14,7 +14,7 @@ RULE = ('every placement of one failure of each kind the property lists (missing
 ASSUMPTIONS = c07.ASSUMPTIONS
 
 FAULTS = [('source', 'absent'), ('source_error', 'reader'), ('source_error', 'generic'),
-          ('source', 'truncated'), ('source', 'lexerr'), ('source', 'synerr'), ('source', 'unresolved'), ('source', 'untyped'),
+          ('source', 'truncated'), ('source', 'lexerr'), ('source', 'synerr'), ('source', 'unresolved'), ('source', 'untyped'), ('source', 'macro_open'),
           ('source', 'dupsym'), ('source', 'ghost'), ('source', 'ghostdefval'), ('source', 'oidloop'), ('source', 'oidself'), ('source', 'empty'),
           ('parser', 'parser'),
           ('codegen', 'codegen'), ('codegen', 'semantic')]
